@@ -822,13 +822,23 @@ def _check_race(ctx):
     p_fail, p_fidx = params(ff)[0], params(ff)[1]
     apps = [(n, c) for n in call_nodes(fg, lambda c: isinstance(c.func, ast.Attribute) and c.func.attr == "append" and isinstance(c.func.value, ast.Name))
             for c in calls_of(fg, n, lambda c: isinstance(c.func, ast.Attribute) and c.func.attr == "append")]
-    ctx.check(len(apps) == 1, "race/failure-recorded", fq, "a failure is not recorded exactly once")
-    if apps:
-        an, ac = apps[0]
-        FS = ac.func.value.id
-        a = ac.args[0] if ac.args else None
-        ctx.check(isinstance(a, ast.Tuple) and len(a.elts) == 2 and is_name(a.elts[0], p_fidx) and is_name(a.elts[1], p_fail), "race/failure-recorded",
-                  ctx.construct(fq, ac), "the failure is not recorded as (index, failure): sorting would not restore input order")
+    # alternative record: a dict keyed by the input's position  `failures[index] = failure`
+    dstores = [(n, t) for n in stmt_nodes(fg, lambda s_: True) for t, v in targets_values(fg.node(n).ast)
+               if isinstance(t, ast.Subscript) and isinstance(t.value, ast.Name) and is_name(v, p_fail)]
+    as_dict = not apps and len(dstores) == 1
+    ctx.check(len(apps) == 1 or as_dict, "race/failure-recorded", fq, "a failure is not recorded exactly once")
+    if apps or as_dict:
+        if as_dict:
+            an, tgt = dstores[0]
+            FS = tgt.value.id
+            ctx.check(is_name(tgt.slice, p_fidx), "race/failure-recorded", ctx.construct(fq, fg.node(an).ast),
+                      "the failure is not recorded under its input index: reading back in key order would not restore input order")
+        else:
+            an, ac = apps[0]
+            FS = ac.func.value.id
+            a = ac.args[0] if ac.args else None
+            ctx.check(isinstance(a, ast.Tuple) and len(a.elts) == 2 and is_name(a.elts[0], p_fidx) and is_name(a.elts[1], p_fail), "race/failure-recorded",
+                      ctx.construct(fq, ac), "the failure is not recorded as (index, failure): sorting would not restore input order")
         wit = avoiding_path(fg, [fg.entry], [fg.exit], [an])
         ctx.check(wit is None, "race/failure-recorded", fq + " | <every call>", "a failure can go unrecorded", witness=fg.describe(wit))
         ebs = call_nodes(fg, lambda c: method_call(c, "errback", F))
@@ -882,7 +892,13 @@ def _check_race(ctx):
                         itx = vals[0]
                 if isinstance(itx, ast.Call) and dotted(itx.func) == "sorted" and len(itx.args) == 1 and not itx.keywords:
                     sorted_inline, itx = True, itx.args[0]
-                if is_name(itx, FS):
+                if as_dict and sorted_inline and is_name(itx, FS) and isinstance(gen.target, ast.Name) and isinstance(comp.elt, ast.Subscript) \
+                        and is_name(comp.elt.value, FS) and is_name(comp.elt.slice, gen.target.id):
+                    good = True        # [failures[i] for i in sorted(failures)]
+                if as_dict and sorted_inline and isinstance(itx, ast.Call) and method_call(itx, "items", FS) and isinstance(gen.target, ast.Tuple) \
+                        and len(gen.target.elts) == 2 and is_name(comp.elt) and is_name(gen.target.elts[1], comp.elt.id):
+                    good = True        # [f for i, f in sorted(failures.items())]
+                if is_name(itx, FS) and not as_dict:
                     if isinstance(gen.target, ast.Tuple) and len(gen.target.elts) == 2 and is_name(comp.elt) and is_name(gen.target.elts[1], comp.elt.id):
                         good = True
                     if isinstance(gen.target, ast.Name) and isinstance(comp.elt, ast.Subscript) and is_name(comp.elt.value, gen.target.id) and const_int(comp.elt.slice) == 1:
@@ -901,7 +917,8 @@ def _check_race(ctx):
         wit = avoiding_path(fg, allT, [fg.exit], ebs, strict=False) if allT else None
         ctx.check(bool(allT) and wit is None, "race/all-failed-fires", fq + " | <all inputs failed>", "when the last input fails the result may not fire",
                   witness=fg.describe(wit))
-        ctx.check(any(is_name(t, FS) and isinstance(v, ast.List) and not v.elts for n in stmt_nodes(g, lambda s: True)
+        ctx.check(any(is_name(t, FS) and ((isinstance(v, ast.List) and not v.elts and not as_dict) or (isinstance(v, ast.Dict) and not v.keys and as_dict))
+                      for n in stmt_nodes(g, lambda s: True)
                       for t, v in targets_values(g.node(n).ast) if v is not None), "race/failure-state-shared", q + f" | {FS} = []",
                   "the failure list is not created once per race() call")
 
@@ -917,7 +934,17 @@ def _check_race(ctx):
             outs = call_nodes(cg_, lambda c: isinstance(dv, ast.Name) and method_call(c, "cancel", dv.id))
             wit = avoiding_path(cg_, [cg_.entry], [cg_.exit], [head])
             ctx.check(wit is None, "race/cancel-covers-inputs", cq + " | <loop reached>", "cancelling the result can skip the inputs", witness=cg_.describe(wit))
-            wit = avoiding_path(cg_, succ_on(cg_, [head], "iter"), [head], outs, strict=False)
+            def not_none_edge(a, b, l):
+                # the inputs are Deferreds: an edge that needs `<loop variable> is None` is not taken
+                if l == "exc":
+                    return False
+                if l in ("T", "F") and cg_.node(a).kind == "test" and isinstance(dv, ast.Name):
+                    isnone = ident_fact(cg_.node(a).ast, l == "T", lambda e: is_name(e, dv.id), lambda e: is_const(e, None))
+                    if isnone is True:
+                        return False
+                return True
+            starts_ = [x for x in succ_on(cg_, [head], "iter") if x not in outs]
+            wit = cg_.path(starts_, [head], avoid=set(outs), edge_ok=not_none_edge) if starts_ else None
             ctx.check(bool(outs) and wit is None, "race/cancel-covers-inputs", cq + " | <input>.cancel()", "an input can be skipped", witness=cg_.describe(wit))
             wit = _no_early_exit(cg_, head)
             ctx.check(wit is None, "race/cancel-covers-inputs", cq + " | <loop covers every input>", "the loop can stop early", witness=cg_.describe(wit))
@@ -1093,4 +1120,10 @@ SILENT = [
            "            for d in to_cancel:\n                if d is not winner:\n                    d.cancel()\n",
            "            others = [d for d in to_cancel if d is not winner]\n            for other in others:\n                other.cancel()\n",
            more=[(D, "            failure_state.sort()\n            failures = [f for (ignored, f) in failure_state]\n", "            ordered = sorted(failure_state)\n            failures = [f for (ignored, f) in ordered]\n")]),
+    Silent("race-shared-cancel-helper-and-failures-by-position", D, "        for d in to_cancel:\n            d.cancel()\n", "        cancelExcept(None)\n",
+           more=[(D, "            for d in to_cancel:\n                if d is not winner:\n                    d.cancel()\n", "            cancelExcept(winner)\n"),
+                 (D, "    final_result: Deferred[tuple[int, _T]] = Deferred(canceller=cancel)\n", "    def cancelExcept(keep):\n        for one in to_cancel:\n            if one is not keep:\n                one.cancel()\n\n    final_result: Deferred[tuple[int, _T]] = Deferred(canceller=cancel)\n"),
+                 (D, "    failure_state = []\n", "    failure_state = {}\n"),
+                 (D, "        failure_state.append((this_index, failure))\n", "        failure_state[this_index] = failure\n"),
+                 (D, "            failure_state.sort()\n            failures = [f for (ignored, f) in failure_state]\n", "            failures = [failure_state[k] for k in sorted(failure_state)]\n")]),
 ]
